@@ -5,6 +5,7 @@ list by their PROCESSORS.md definitions). Target rows in order; full-outer tail 
 output compared as multisets; `set`/`counters`/`any` compared by their unordered definitions.
 """
 import collections
+import os
 import copy
 import datetime
 import decimal
@@ -239,6 +240,11 @@ def run_case(case):
         # no fields at all (the documented default): the join still matches, filters (inner) and appends (full-outer)
         fields, ref_fields = {}, {}
         cov.setdefault('config', {})['empty_fields_mapping/' + mode] = 1
+    if mode == 'dedup' and spill and 'k' not in fields:
+        # thousands of output rows: the key is passed through ({'k': None}, the documented way to keep it), so that every
+        # expected row is identified exactly (pairing rows with `any` / `set` fields as multisets is not sound at that size)
+        fields['k'] = None
+        ref_fields['k'] = {'name': 'k', 'aggregate': 'any', '_name_given': True}
     source_delete = rng.random() < 0.6
     cfg = {'mode': mode, 'source_key': source_key, 'target_key': target_key, 'fields': fields,
            'source_delete': source_delete, 'shape': shape, 'ns': ns, 'nt': nt}
@@ -445,7 +451,7 @@ def run_case(case):
             for e in exp_tail:
                 fs = tuple(sorted(k for k, v in e.items() if v is not None and not isinstance(v, MARK)))
                 buckets.setdefault((fs, tuple(norm(e[k]) for k in fs)), []).append(e)
-            for (fs, vals), exps in buckets.items():
+            for (fs, vals), exps in sorted(buckets.items(), key=lambda kv: -len(kv[0][0])):      # most constrained first
                 if fs not in index:
                     index[fs] = {}
                     for j, g in enumerate(pool):
